@@ -4,7 +4,7 @@
    insertion / copy / slice with default flags produce storage that nothing else can reach. *)
 From Coq Require Import List Arith Bool QArith Lia.
 Import ListNotations.
-From PD Require Import Model.Heap Proofs.Heap Proofs.HeapWf Proofs.HeapSep.
+From PD Require Import Model.Heap Proofs.Heap Proofs.HeapWf Proofs.HeapSep Proofs.HeapTimes.
 Local Open Scope nat_scope.
 
 (* ------------------------------------------------------------------------------------ *)
@@ -147,8 +147,8 @@ Definition writes_only (h h' : heap) (l0 : loc) : Prop :=
   h' = h \/ exists s v, obj_of h l0 = Some s /\ h' = set_store h s v.
 
 Lemma writes_only_tables h h' l0 : writes_only h h' l0 ->
-  hnd h' = hnd h /\ ems h' = ems h /\ tcs h' = tcs h /\ trs h' = trs h /\ objs h' = objs h
-  /\ arrs h' = arrs h /\ tls h' = tls h.
+  hnd h' = hnd h /\ ems h' = ems h /\ tcs h' = tcs h /\ trs h' = trs h /\ tlists h' = tlists h
+  /\ tvars h' = tvars h /\ objs h' = objs h /\ arrs h' = arrs h /\ tls h' = tls h.
 Proof. intros [->|(s & v & _ & ->)]; simpl; repeat split; auto. Qed.
 
 Lemma writes_only_vals h h' l0 ls :
@@ -160,13 +160,18 @@ Lemma writes_only_val h h' l0 l :
 Proof. intros N [->|(s & v & E & ->)] Hn; auto. eapply val_of_write_other; eauto. Qed.
 
 (* abs_tc only looks at the emulsions listed in the time course *)
+Lemma tr_times_tables h h' t : tlists h' = tlists h -> tr_times h' t = tr_times h t.
+Proof. intros E. unfold tr_times. apply tl_get_same; auto. Qed.
+Lemma tc_times_tables h h' t : tlists h' = tlists h -> tc_times h' t = tc_times h t.
+Proof. intros E. unfold tc_times. apply tl_get_same; auto. Qed.
+
 Lemma abs_tc_frame h h' t :
-  tcs h' = tcs h ->
+  tcs h' = tcs h -> tlists h' = tlists h ->
   (forall tc c, nth_error (tcs h) t = Some tc -> In c (tc_ems tc) -> abs_em h' c = abs_em h c) ->
   abs_tc h' t = abs_tc h t.
 Proof.
-  intros E H. unfold abs_tc. rewrite E. destruct (nth_error (tcs h) t) as [tc|] eqn:Et; simpl; auto.
-  f_equal. f_equal. apply map_ext_in. intros c Hc. eapply H; eauto.
+  intros E E' H. unfold abs_tc. rewrite E. destruct (nth_error (tcs h) t) as [tc|] eqn:Et; simpl; auto.
+  f_equal. rewrite (tc_times_tables h h' tc E'). f_equal. apply map_ext_in. intros c Hc. eapply H; eauto.
 Qed.
 
 (* ------------------------------------------------------------------------------------ *)
@@ -186,7 +191,7 @@ Proof.
   destruct (nth_error (hnd h) i) as [l0|] eqn:Ei; simpl; [|repeat split; auto].
   assert (WO : writes_only h (fst (write_loc h l0 k q)) l0).
   { destruct (write_loc_shape h l0 k q) as [E|(s & v & E1 & E2)]; [left; auto|right; eauto]. }
-  destruct (writes_only_tables _ _ _ WO) as (T1 & T2 & T3 & T4 & _).
+  destruct (writes_only_tables _ _ _ WO) as (T1 & T2 & T3 & T4 & T5 & _).
   destruct S as (S1 & S2 & S3). assert (S : Sep h) by (repeat split; auto).
   assert (EM : forall c, abs_em (fst (write_loc h l0 k q)) c = abs_em h c).
   { intros c. unfold abs_em. rewrite T2. destruct (nth_error (ems h) c) as [e|] eqn:Ee; simpl; auto.
@@ -195,7 +200,7 @@ Proof.
   - intros j Hj. unfold abs_hnd. rewrite T1. destruct (nth_error (hnd h) j) as [l|] eqn:Ej; auto.
     eapply writes_only_val; eauto. intros ->. apply Hj. eapply sep_hnd_hnd; eauto.
   - intros n. unfold abs_tr. rewrite T4. destruct (nth_error (trs h) n) as [t|] eqn:Et; simpl; auto.
-    f_equal. f_equal. eapply writes_only_vals; eauto. eapply sep_hnd_tr; eauto.
+    f_equal. rewrite (tr_times_tables h _ t T5). f_equal. eapply writes_only_vals; eauto. eapply sep_hnd_tr; eauto.
   - intros t. apply abs_tc_frame; auto.
 Qed.
 
@@ -208,7 +213,7 @@ Lemma member_write_frame h h' c e l0 :
   (forall t, (forall tc, nth_error (tcs h) t = Some tc -> ~ In c (tc_ems tc)) -> abs_tc h' t = abs_tc h t).
 Proof.
   intros W S Ee Hin WO.
-  destruct (writes_only_tables _ _ _ WO) as (T1 & T2 & T3 & T4 & _).
+  destruct (writes_only_tables _ _ _ WO) as (T1 & T2 & T3 & T4 & T5 & _).
   destruct S as (S1 & S2 & S3). assert (S : Sep h) by (repeat split; auto).
   assert (EM : forall c', c' <> c -> abs_em h' c' = abs_em h c').
   { intros c' Hc. unfold abs_em. rewrite T2. destruct (nth_error (ems h) c') as [e'|] eqn:Ee'; simpl; auto.
@@ -217,7 +222,7 @@ Proof.
   - intros j. unfold abs_hnd. rewrite T1. destruct (nth_error (hnd h) j) as [l|] eqn:Ej; auto.
     eapply writes_only_val; eauto. eapply sep_em_hnd; eauto.
   - intros n. unfold abs_tr. rewrite T4. destruct (nth_error (trs h) n) as [t|] eqn:Et; simpl; auto.
-    f_equal. f_equal. eapply writes_only_vals; eauto. eapply sep_em_tr; eauto.
+    f_equal. rewrite (tr_times_tables h _ t T5). f_equal. eapply writes_only_vals; eauto. eapply sep_em_tr; eauto.
   - intros t Ht. apply abs_tc_frame; auto. intros tc c' Etc Hc'. apply EM. intros ->.
     eapply Ht; eauto.
 Qed.
